@@ -38,6 +38,11 @@ struct T {
     FILE *log, *times;
     uint64_t rng;
     char dir[512];
+    /* a context created and opened by the MAIN thread before the workers start, then used by this worker alone */
+    zckCtx *hand;
+    int hand_fd, hand_ok;
+    size_t hand_n;
+    uint64_t hand_want;
 };
 
 static uint64_t nxt(struct T *t) { t->rng ^= t->rng << 13; t->rng ^= t->rng >> 7; t->rng ^= t->rng << 17; return t->rng; }
@@ -536,9 +541,40 @@ static void scenario_round2(struct T *t, int round) {
     (void)pt;
 }
 
+static void prepare_handoff(struct T *t) {
+    char p[600];
+    snprintf(p, sizeof(p), "%s/hand.zck", t->dir);
+    size_t n = 60000 + (nxt(t) % 90000);
+    char *A = gen_content(t, n, 77);
+    int rc = write_file(t, p, A, n, ZCK_COMP_ZSTD, t->k % 2, 0);
+    t->hand_want = fnv(A, n, 1469598103934665603ULL);
+    t->hand_n = n;
+    free(A);
+    t->hand_fd = open(p, O_RDONLY);
+    t->hand = zck_create();
+    t->hand_ok = rc && t->hand && t->hand_fd >= 0 && zck_init_read(t->hand, t->hand_fd);
+}
+
+static void use_handoff(struct T *t) {
+    if(!t->hand) return;
+    int ok = t->hand_ok;
+    uint64_t h = 1469598103934665603ULL;
+    size_t total = 0;
+    if(ok) {
+        char buf[5003];
+        ssize_t r;
+        while((r = zck_read(t->hand, buf, sizeof(buf))) > 0) { h = fnv(buf, r, h); total += r; }
+        ok = (r == 0) && zck_close(t->hand);
+    }
+    L(t, "r0 handoff ok=%d total=%zu fnv=%016llx want=%016llx", ok, total, (unsigned long long)h, (unsigned long long)t->hand_want);
+    zck_free(&t->hand);
+    close(t->hand_fd);
+}
+
 static void *thread_main(void *arg) {
     struct T *t = arg;
     tl_msgs = 0;
+    use_handoff(t);
     for(int r = 0; r < rounds; r++) {
         scenario_round(t, r);
         if((t->k + r) % 2 == 0) scenario_failing_writer(t, r);
@@ -575,6 +611,7 @@ int main(int argc, char **argv) {
         ts[k].times = fopen(p, "w");
         if(!ts[k].log || !ts[k].times) { perror("log"); return 3; }
     }
+    for(int k = 0; k < nthreads; k++) prepare_handoff(&ts[k]);
     if(par) {
         for(int k = 0; k < nthreads; k++) pthread_create(&th[k], NULL, thread_main, &ts[k]);
         for(int k = 0; k < nthreads; k++) pthread_join(th[k], NULL);
